@@ -95,13 +95,17 @@ extern "C" void* __wrap_realloc(void* old, size_t n)
         return __real_realloc(old, n);
     if (should_fail())
         return nullptr; // the old block stays valid, as realloc promises
+    bool alien = false;
     if (old) {
         g_inside = true;
-        if (!live().erase(old))
+        if (!live().erase(old)) {
             g_alien_realloc++;
+            alien = true;
+        }
         g_inside = false;
     }
-    void* p = __real_realloc(old, n);
+    // a block the library does not own is recorded and left alone (the caller still owns it)
+    void* p = alien ? __real_malloc(n ? n : 1) : __real_realloc(old, n);
     note_alloc(p);
     return p;
 }
@@ -114,9 +118,12 @@ extern "C" void __wrap_free(void* p)
     }
     if (p) {
         g_inside = true;
-        if (!live().erase(p))
-            g_alien_free++;
+        bool alien = !live().erase(p);
         g_inside = false;
+        if (alien) {
+            g_alien_free++; // recorded, not forwarded: the caller still owns that block
+            return;
+        }
     }
     __real_free(p);
 }
